@@ -191,3 +191,26 @@ func VH_C11_join_with_clients() {
 	p2.ReleaseClients()
 	vAssert(vLocksHeld() == 0, "C11.joinclients.release.no-lock-held")
 }
+
+// pipelined clients for pointer fields with large indexes (two-byte field numbers) end up
+// referring to the capability in exactly that field of the result
+func VH_C11_pipelined_client_field_index() {
+	p := NewPromise(Method{}, &vCaller{})
+	field := uint16(256 + vConc(int(vNondetU8()), 3)) // 256, 257, 258
+	c := p.Answer().Field(field, nil).Client()
+	vAssert(c != nil && vLocksHeld() == 0, "C11.field.client")
+	// result: struct with 260 pointers; the requested field holds capability 1, the field with the
+	// same low byte holds capability 0
+	msg, seg := vNewMsg()
+	res, err := NewRootStruct(seg, ObjectSize{PointerCount: 260})
+	vAssume(err == nil)
+	h0, h1 := &vHook{}, &vHook{}
+	msg.CapTable = []*Client{NewClient(h0), NewClient(h1)}
+	vAssume(res.SetPtr(field, NewInterface(seg, 1).ToPtr()) == nil)
+	vAssume(res.SetPtr(field&0xff, NewInterface(seg, 0).ToPtr()) == nil)
+	p.Fulfill(res.ToPtr())
+	vReach("fulfilled")
+	vAssert(vLocksHeld() == 0, "C11.field.fulfill.no-lock-held")
+	c.SendCall(context.Background(), Send{})
+	vAssert(h1.sends == 1 && h0.sends == 0, "C11.field.client-refers-to-the-requested-field")
+}
